@@ -1,21 +1,43 @@
-"""C17: progress guarantees -- wait-free / lock-free operations never wait on other threads; *_nonblocking variants never wait.
+"""C17: progress guarantees -- wait-free and lock-free operations never wait on other threads; *_nonblocking variants never wait.
 
 Design level (TLC): spec/trace/Solo.tla.in, a generic wrapper over the generated MC module of any PlusCal component: Freeze(t) may fire
 once, in any reachable state in which t is inside an operation (segment) documented wait-free / lock-free / non-blocking; afterwards only
 thr(t) (and store-buffer flushers) step.  Invariants: SoloBound (own access steps <= B(kind)), SoloProgress (the solo thread is never
-blocked), SoloNoWait (no busy-wait / poll / futex wait iteration), NbNeverWaits, WouldBlockJustified; SoloMax reports the maxima TLC
-reached.  Negative controls: blocking operations claimed wait-free must violate them.
+blocked), SoloNoWait (no busy-wait / poll / futex-wait iteration), NbNeverWaits (non-blocking variants never wait, frozen or not),
+WouldBlockJustified (WOULDBLOCK only while another thread is between the two halves of an enqueue / push, or -- failed cmpxchg of the
+wfstack pop -- after interference); SoloMax reports the maxima TLC reached per kind (the established bounds, next to the claimed ones).
+Negative controls: blocking operations (blocking dequeue / pop / traversal, operations taking the dequeue / pop mutex, synchronize_rcu)
+claimed lock-free on purpose must violate SoloNoWait / SoloBound / SoloProgress.
 
-Code level: the real sources under the VSCHED runtime with VRT_SOLO=<t>:<k> for every thread t and every scheduling decision k of seeded
-schedules: the runtime suspends every other thread at decision k when t is inside an operation whose class is wait-free / lock-free;
-WAITED / SOLO_BLOCKED / SOLO_BUDGET are violations (schedule = replay).  Every recorded execution (prefix + solo suffix) must be an
-ordinary behaviour of the component's specification (trace validation, the component's own trace spec), and the number of own access
-events of the solo thread must be <= the bound (the events counted are exactly those trace validation matches one-to-one with
-acc-changing steps of the specification, which is what soloSteps counts in Solo.tla.in).
+Code level (the real sources under the VSCHED runtime), per component and scenario:
+ * VRT_SOLO=<t>:<k> for every thread t and every scheduling decision k of seeded schedules (PCT / uniform, software-TSO and SC): the
+   runtime suspends every other thread at decision k when t is inside an operation whose class is wait-free / lock-free and runs t alone
+   to the end of the operation; WAITED / SOLO_BLOCKED / SOLO_BUDGET are violations (seed + VRT_SOLO = replay);
+ * the same enumeration after TLC-derived prefixes: TLC's shortest behaviours reaching the WOULDBLOCK paths of the non-blocking variants
+   and the "half done" states (node linked / tail not swung, REMOVED set / not unlinked) are forced onto the real code as schedules; the
+   code must follow them, return WOULDBLOCK where the specification does, without a busy-wait hint;
+ * every recorded execution (prefix + solo suffix) must be an ordinary behaviour of the component's specification (trace validation
+   with the component's own trace spec: the executions are inside the state space TLC covered, so every invariant established there --
+   WouldBlockJustified included -- holds on them), and the number of own access events of the solo thread must be <= the maximum TLC
+   established for that scenario (<= the claimed bound B where the scenario is not model checked).  The events counted are those trace
+   validation matches one-to-one with acc-changing steps of the specification, which is what soloSteps counts;
+ * busy-wait hints (caa_cpu_relax / poll) inside a *_nonblocking call are violations in every execution, solo or not;
+ * binding control: one field of a recorded solo execution is altered and must be rejected.
 
-Adding a component = one entry in SOLO (kind table + four TLA+ one-liners + scenarios); see register().
+Kinds and claimed bounds B (own shared accesses, fences and blocking calls of one operation running alone):
+  wfcqueue  enqueue 3 (mb, xchg, store) wait-free; dequeue_nonblocking 9, splice_nonblocking 7 never wait; empty 2
+  wfstack   push 3, __cds_wfs_pop_all 2 wait-free; pop_nonblocking 4 never waits; empty 1
+  lfstack   push 6, pop 6 lock-free (one retry when the head moved before the freeze); pop_all + traversal 2 + #nodes wait-free; empty 1
+  rculfqueue enqueue 4 x #threads, dequeue 4 x #threads + 12 lock-free (one helping round per suspended half-done enqueue)
+  urcu mb / memb  rcu_read_lock 3, rcu_read_unlock 6 (memb without sys_membarrier; 4 otherwise), rcu_dereference 1, rcu_xchg_pointer 1
+  rculfhash lookup #linked nodes + 4, duplicate walk / traversal 2 x #linked nodes + 4 wait-free; add / add_unique / add_replace /
+            replace / del lock-free, 2 x (#threads + 1) x (#linked nodes + 2) + #threads + 8
+Blocking operations (blocking dequeue / splice / pop / traversals, anything under the dequeue / pop mutex, synchronize_rcu, resize,
+register / unregister) are excluded as documented.
+
+Adding a component = one register() entry (kind table + a few TLA+ one-liners + scenario lists).
 """
-import os, re, json, shutil, hashlib
+import os, re, json, shutil, hashlib, threading, itertools, time
 from vlib import *
 import vlib, conc
 
@@ -24,7 +46,12 @@ ASSUMPTIONS = ["x86-TSO memory model; suspended threads' store buffers may drain
                "suspension points are the boundaries between shared accesses / blocking calls (the steps of the specification and the scheduling points of the runtime), not machine instructions",
                "a step = one shared access, fence or blocking call of the operation (one acc-changing action of the specification = one logged event of the runtime); thread-private computation is not counted",
                "bounded scenarios (<= 4 threads, <= 3 nodes, store buffers <= 2): bounds of lock-free operations are established for these sizes (they grow with the number of suspended half-done operations)",
-               "RCU read-side of the data-structure drivers is abstract (absrcu.h) and outside the measured operation; read-side lock/unlock of the real flavors mb and memb are measured through UrcuGp"]
+               "RCU read-side of the data-structure drivers is abstract (absrcu.h) and outside the measured operation; read-side lock/unlock of the real flavors mb and memb are measured "
+               "through UrcuGp (qsbr read-side markers are empty, bp is not covered here); call_rcu invoked by the rculfqueue dequeue is one abstract step",
+               "freeze points on the real code are those reached by seeded schedules (PCT and uniform) and by TLC's shortest behaviours to the WOULDBLOCK paths and half-done states; "
+               "all freeze points of the bounded scenarios are covered at design level only",
+               "d_wfcq.c brackets non-blocking dequeue / splice under the dequeue mutex as lock-free: those runs are excluded (mutex = blocking as documented); "
+               "d_wfs.c brackets __cds_wfs_pop_all + traversal as one blocking operation: harness/d_c17_wfs.c re-brackets the call of __cds_wfs_pop_all as its own wait-free segment"]
 
 SOLO = {}        # component name -> description (see the entries below)
 
@@ -33,10 +60,10 @@ def register(name, desc):
     SOLO[name] = desc
 
 
-def K(kind, cls, labels, B, when=None, apis=()):
+def K(kind, cls, labels, B, when=None, apis=(), optional=False):
     """kind: name; cls: wf | lf | nb; labels: label names or prefixes 'x_*' of the segment; B: int or callable(scenario) -> int;
     when: TLA+ condition on t (evaluated only when pc[t] is one of the labels); apis: runtime operation names (vrt_op_begin) of this kind"""
-    return {"kind": kind, "cls": cls, "labels": labels, "B": B, "when": when, "apis": tuple(apis)}
+    return {"kind": kind, "cls": cls, "labels": labels, "B": B, "when": when, "apis": tuple(apis), "optional": optional}      # optional: not part of the claim (no vacuity note)
 
 
 # ------------------------------------------------------------------ TLA+ generation
@@ -55,11 +82,15 @@ def spec_vars(spec):
     return vs
 
 
+IDLE = ("t_top", "t_disp", "t_ret", "t_end")      # call / dispatch / return labels: the thread is between operations
+
+
 def expand_labels(spec, pats):
     labs = spec_labels(spec)
     out = []
     for p in pats:
-        got = [l for l in labs if l.startswith(p[:-1])] if p.endswith("*") else [l for l in labs if l == p]
+        got = ([l for l in labs if l not in IDLE] if p == "*" else
+               [l for l in labs if l.startswith(p[:-1])] if p.endswith("*") else [l for l in labs if l == p])
         if not got:
             raise RuntimeError("no label %s in %s" % (p, spec))
         out += [g for g in got if g not in out]
@@ -70,24 +101,28 @@ def bound(k, sc):
     return k["B"](sc) if callable(k["B"]) else k["B"]
 
 
+def zt(txt):
+    """the component tables are written over a thread t; the template's bound variables are z-prefixed (no clash with any module's variables)"""
+    return re.sub(r"(?<![\w.])t(?![\w])", "zt", txt)
+
+
 def component_text(S, sc, kinds):
     spec = S["spec"]
     L = []
     n = len(kinds)
     L.append("NKinds == %d" % n)
-    L.append("KindIdx(k) == CASE " + " [] ".join('k = "%s" -> %d' % (k["kind"], i + 1) for i, k in enumerate(kinds)))
-    L.append("KindBound(k) == CASE " + " [] ".join('k = "%s" -> %d' % (k["kind"], bound(k, sc)) for k in kinds))
+    L.append("KindIdx(zk) == CASE " + " [] ".join('zk = "%s" -> %d' % (k["kind"], i + 1) for i, k in enumerate(kinds)))
+    L.append("KindBound(zk) == CASE " + " [] ".join('zk = "%s" -> %d' % (k["kind"], bound(k, sc)) for k in kinds))
     L.append("NbKinds == {%s}" % ", ".join('"%s"' % k["kind"] for k in kinds if k["cls"] == "nb"))
     expr = 'NONE'
     for k in reversed(kinds):
         labs = ", ".join('"%s"' % l for l in expand_labels(spec, k["labels"]))
-        cond = "pc[t] \\in {%s}" % labs + (" /\\ (%s)" % k["when"] if k["when"] else "")
+        cond = "pc[zt] \\in {%s}" % labs + (" /\\ (%s)" % zt(k["when"]) if k["when"] else "")
         expr = 'IF %s THEN "%s"\n              ELSE %s' % (cond, k["kind"], expr)
-    L.append("SoloKind(t) == " + expr)
+    L.append("SoloKind(zt) == " + expr)
     L.append("HalfLabels == {%s}" % ", ".join('"%s"' % l for l in S.get("half_labels", ())))
-    L.append("WaitStep(t) == " + S.get("wait_step", "FALSE"))
-    L.append("WbStrong(t) == " + S.get("wb_strong", "FALSE"))
-    L.append("WbWeak(t) == " + S.get("wb_weak", "FALSE"))
+    for opname, key in (("WaitStep", "wait_step"), ("WbStrong", "wb_strong"), ("WbWeak", "wb_weak"), ("WbObs", "wb_obs")):
+        L.append("%s(zt) ==\n" % opname + "\n".join("    " + ln.strip() for ln in zt(S.get(key, "FALSE")).split("\n")))
     return "\n".join(L)
 
 
@@ -95,7 +130,7 @@ INVS = ["SoloBound", "SoloProgress", "SoloNoWait", "NbNeverWaits", "WouldBlockJu
 
 
 def gen_solo(S, sc, kinds, tag=""):
-    comp = S["comp"]() if callable(S["comp"]) else S["comp"]
+    comp = (S.get("mc_comp") or S["comp"])()
     c = conc.consts_for(comp, sc, True, True)           # TSO on, Tracing on (acc names the actor / marks access steps; hidden by the VIEW)
     base = gen_mc(sc, "solobase%s%s" % (comp.get("variant", ""), tag), c, cfg_lines=[])
     mod = "SOLO_%s%s%s" % (sc["name"], comp.get("variant", ""), tag)
@@ -120,6 +155,10 @@ def solo_maxima(out):
 
 
 # ------------------------------------------------------------------ components
+# Entry fields: spec; comp() -> component dict of the owning plugin (driver, trace spec, constants; may override the driver);
+# mc_comp() (constants for TLC when they differ); kinds; wait_step / wb_strong / wb_weak (TLA+ action-level text over t, primed
+# variables = state after t's step); half_labels; next; tlc / bind scenario lists per tier; controls; nb_call (call event -> the
+# operation is a non-blocking variant); skip_call (call event -> the driver's class label is not the documented one: not measured).
 def _wfcq():
     from props import c10
     return c10.WFCQ
@@ -127,17 +166,771 @@ def _wfcq():
 
 NB_DEQ = 'op[t].op = "deq" /\\ ~op[t].blk /\\ ~op[t].lck'
 NB_SPL = 'op[t].op = "splice" /\\ ~op[t].blk /\\ ~op[t].lck'
+WFCQ_WAIT = ('\\/ pc[t] \\in {"d_sync", "d_sn2", "f_sync", "n_sync"} /\\ pc\'[t] = pc[t]\n'
+             '               \\/ pc[t] = "s_lt" /\\ pc\'[t] = "s_xh"')
 register("wfcq", {
     "spec": "Wfcq", "comp": _wfcq,
     "kinds": [K("enq", "wf", ["e_*"], 3, apis=["wfcq_enqueue"]),
               K("deq_nb", "nb", ["d_*"], 9, when=NB_DEQ, apis=["wfcq_dequeue_nonblocking"]),
               K("splice_nb", "nb", ["s_*"], 7, when=NB_SPL, apis=["wfcq_splice"]),
               K("empty", "wf", ["m_*"], 2, apis=["wfcq_empty"])],
-    # busy-wait iterations of ___cds_wfcq_busy_wait loops: sync_next re-loads, the blocking splice retry
-    "wait_step": '\\/ pc[t] \\in {"d_sync", "d_sn2", "f_sync", "n_sync"} /\\ pc\'[t] = pc[t]\n'
-                 '               \\/ pc[t] = "s_lt" /\\ pc\'[t] = "s_xh"',
+    # busy-wait iterations of the ___cds_wfcq_busy_wait loops: sync_next re-loads, the blocking splice retry
+    "wait_step": WFCQ_WAIT,
     "half_labels": ["e_link", "s_al"],           # tail exchanged, link store not yet issued
     "wb_strong": '\\/ pc[t] = "d_sync" /\\ pc\'[t] = "d_unlock" /\\ res\'[t] = WB\n'
                  '               \\/ pc[t] = "d_sn2" /\\ pc\'[t] = "d_undo"\n'
                  '               \\/ pc[t] = "s_lt" /\\ res\'[t] = WB',
+    "wb_obs": 'pc[t] = "s_xh" /\\ hd\'[t] = NULL',        # splice: the exchange that found head.next = NULL; the decision (tail # head) comes one load later
+    "tlc": {"quick": ["solo_wfcq_deq", "solo_wfcq_splice"], "thorough": ["solo_wfcq_deq", "solo_wfcq_splice", "wfcq_nb", "wfcq_2e1d", "wfcq_splice"]},
+    "bind": {"quick": ["solo_wfcq_deq", "solo_wfcq_splice"], "thorough": ["solo_wfcq_deq", "solo_wfcq_splice", "wfcq_nb", "wfcq_2e1d", "wfcq_splice", "wfcq_locked"]},
+    # negative controls: the BLOCKING dequeue / splice / iteration claimed lock-free must wait behind a suspended half-done enqueue;
+    # a dequeue that takes the queue mutex claimed lock-free must block behind a suspended lock holder
+    "controls": [
+        {"scenario": "solo_wfcq_ctl", "what": "blocking dequeue claimed lock-free",
+         "kinds": [K("deq_blk", "lf", ["d_*"], 9, when='op[t].op = "deq" /\\ op[t].blk /\\ ~op[t].lck')], "expect": ["SoloNoWait", "SoloBound"]},
+        {"scenario": "solo_wfcq_ctl_lck", "what": "dequeue under the queue mutex claimed lock-free",
+         "kinds": [K("deq_lck", "lf", ["d_*"], 11, when='op[t].op = "deq" /\\ op[t].lck')], "expect": ["SoloProgress"]}],
+    # the WOULDBLOCK paths of the non-blocking variants (TLC's shortest behaviours reaching them become schedule prefixes for the real code)
+    "witnesses": {"solo_wfcq_deq": [("deq_first_link_missing", 'pc[t] = "d_unlock" /\\ res[t] = WB /\\ op[t].op = "deq"'),
+                                    ("deq_second_link_missing", 'pc[t] = "d_undo"')],
+                  "solo_wfcq_splice": [("splice_link_missing", 'pc[t] = "s_unlock" /\\ res[t] = WB')]},
+    "nb_call": lambda e: e.get("api") in ("deq", "splice") and e.get("blk") == 0,
+    "skip_call": lambda e: e.get("api") in ("deq", "splice") and e.get("lck") == 1,      # d_wfcq.c: class LOCKFREE although the mutex is taken
 })
+
+
+def _wfs():
+    from props import c11
+    return dict(c11.WFS, driver="d_c17_wfs.c", drvname="d_c17_wfs")
+
+
+register("wfs", {
+    "spec": "Wfs", "comp": _wfs,
+    "kinds": [K("push", "wf", ["w_*"], 3, apis=["wfs_push"]),
+              K("popall", "wf", ["a_*"], 2, when="~op[t].lck", apis=["wfs_pop_all_wf"]),           # __cds_wfs_pop_all only; the traversal is blocking
+              K("pop_nb", "nb", ["o_*"], 4, when='~op[t].blk /\\ ~op[t].lck', apis=["wfs_pop_nonblocking"]),
+              K("empty", "wf", ["m_*"], 1, apis=["wfs_empty"])],
+    "wait_step": '\\/ pc[t] = "o_sync" /\\ pc\'[t] = "o_sync"\n               \\/ pc[t] = "i_next" /\\ next\'[t] = NULL',
+    "half_labels": ["w_st"],                     # head exchanged, node->next not yet stored
+    "wb_strong": 'pc[t] = "o_sync" /\\ res\'[t] = WB',
+    "wb_weak": 'pc[t] = "o_cas" /\\ res\'[t] = WB',           # "head changed under us"
+    "tlc": {"quick": ["solo_wfs_q"], "thorough": ["solo_wfs_q", "wfs_nb", "wfs_popall", "wfs_2p1c"]},
+    "bind": {"quick": ["solo_wfs_q"], "thorough": ["solo_wfs_q", "wfs_nb", "wfs_popall", "wfs_2p1c", "wfs_q_sc"]},
+    "controls": [
+        {"scenario": "solo_wfs_ctl", "what": "blocking pop claimed lock-free",
+         "kinds": [K("pop_blk", "lf", ["o_*"], 8, when='op[t].blk /\\ ~op[t].lck')], "expect": ["SoloNoWait", "SoloBound"]},
+        {"scenario": "solo_wfs_ctl", "what": "blocking traversal of the popped list claimed wait-free",
+         "kinds": [K("traverse", "wf", ["i_*"], 4)], "expect": ["SoloNoWait", "SoloBound"]}],
+    "witnesses": {"solo_wfs_q": [("pop_next_missing", 'pc[t] = "o_unlock" /\\ res[t] = WB /\\ next[t] = NULL'),
+                                 ("pop_head_moved", 'pc[t] = "o_unlock" /\\ res[t] = WB /\\ next[t] # NULL')]},
+    "nb_call": lambda e: e.get("api") == "pop" and e.get("blk") == 0,
+})
+
+
+def _lfs():
+    from props import c11
+    return c11.LFS
+
+
+def _lfs_mc():
+    from props import c11
+    return c11.LFS_MC
+
+
+def _nodes(sc):
+    return len({o["n"] for ops in sc["threads"].values() for o in ops if o.get("op") in ("push", "enq") and not str(o.get("n", "@")).startswith("@")})
+
+
+register("lfs", {
+    "spec": "Lfs", "comp": _lfs, "mc_comp": _lfs_mc,
+    # lock-free: a failed cmpxchg means another operation moved the head; alone, the retry succeeds (<= 2 rounds)
+    "kinds": [K("push", "lf", ["p_*"], 6, apis=["lfs_push"]),
+              K("pop", "lf", ["q_ldh", "q_ldn", "q_cas", "q_mb"], 6, when="~op[t].lck", apis=["lfs_pop"]),
+              K("popall", "wf", ["x_*", "y_*"], lambda sc: 2 + _nodes(sc), when="~op[t].lck", apis=["lfs_pop_all"]),      # pop_all + wait-free traversal
+              K("empty", "wf", ["m_*"], 1, apis=["lfs_empty"])],
+    "tlc": {"quick": ["solo_lfs_q", "solo_lfs_legacy"], "thorough": ["solo_lfs_q", "solo_lfs_legacy", "lfs_q_sc", "lfs_q_rcu", "lfs_q_legacy"]},
+    "bind": {"quick": ["solo_lfs_q", "solo_lfs_legacy"], "thorough": ["solo_lfs_q", "solo_lfs_legacy", "lfs_q_sc", "lfs_q_rcu", "lfs_q_legacy", "lfs_q_lock", "lfs_sc", "lfs_rcu"]},
+    "controls": [
+        {"scenario": "solo_lfs_ctl", "what": "pop under the pop mutex claimed lock-free",
+         "kinds": [K("pop_lck", "lf", ["q_lock", "q_ldh", "q_ldn", "q_cas", "q_mb"], 8, when="op[t].lck")], "expect": ["SoloProgress"]}],
+})
+
+
+def _lfq():
+    from props import c12
+    return c12.LFQ
+
+
+def _lfq_prepare(ctx, exe, wd):
+    from props import c12
+    ht = c12.detect_variant(ctx, exe, wd)
+    c12.configure(ht)
+    ctx.extra["lfq_variant"] = "HelpTail = %s" % ("TRUE" if ht else "FALSE")
+    if not ht:
+        ctx.notes.append("rculfqueue.h under test is the unrepaired variant (dequeue does not help q->tail): Lfq checked with HelpTail = FALSE")
+
+
+def _threads(sc):
+    return len(sc["threads"])
+
+
+register("lfq", {
+    "spec": "Lfq", "comp": _lfq, "prepare": _lfq_prepare,
+    # lock-free with helping: every failed cmpxchg on tail->next is followed by the helper cmpxchg that moves q->tail past one node
+    # linked by a (possibly suspended) enqueuer; alone, an enqueue needs one round of 4 accesses per node the tail lags behind (at most one
+    # per suspended thread) plus its own: 4 * #threads.  A dequeue adds its own loads / cmpxchg twice (dummy removed, then the node) and
+    # the enqueue of a fresh dummy.  The maxima TLC reaches are reported next to these bounds (SoloMax).
+    "kinds": [K("enq", "lf", ["e_*"], lambda sc: 4 * _threads(sc), when='op[t].op = "enq"', apis=["lfq_enqueue"]),
+              K("deq", "lf", ["d_*", "e_*"], lambda sc: 4 * _threads(sc) + 12, when='op[t].op = "deq"', apis=["lfq_dequeue"]),
+              K("destroy", "wf", ["x_*"], 2, when='op[t].op = "destroy"', apis=["lfq_destroy"], optional=True)],
+    "tlc": {"quick": ["lfq_2e1d1"], "thorough": ["lfq_2e1d1", "solo_lfq_help", "lfq_2e1d", "lfq_empty", "lfq_destroy", "lfq_lag"]},
+    "bind": {"quick": ["lfq_2e1d1", "solo_lfq_help"], "thorough": ["lfq_2e1d1", "solo_lfq_help", "lfq_lag", "lfq_2e1d", "lfq_empty", "lfq_destroy", "lfq_recycle"]},
+    # states in which a suspended operation has linked its node but not yet swung q->tail: the solo runs that follow must help
+    "witnesses": {"lfq_2e1d1": [("enqueue_linked_tail_lagging", 'pc[t] = "e_adv" /\\ op[t].op = "enq"', False),
+                                ("dequeue_dummy_linked_tail_lagging", 'pc[t] = "e_adv" /\\ op[t].op = "deq"', False)]},
+    "controls": [
+        {"scenario": "solo_lfq_ctl", "what": "synchronize_rcu (abstract grace period) claimed lock-free",
+         "kinds": [K("sync", "lf", ["s_end"], 2)], "expect": ["SoloProgress"]}],
+})
+
+GP_KINDS = [K("rlock", "wf", ["rl_*"], 3, apis=["rcu_read_lock"]),
+            K("runlock", "wf", ["ru_*"], 6, apis=["rcu_read_unlock"]),
+            K("deref", "wf", ["dr_*"], 1, apis=["rcu_dereference"]),
+            K("xchg_pointer", "wf", ["p_*"], 1, apis=["rcu_xchg_pointer"])]
+GP_WAIT = 'pc[t] \\in {"k_next", "a_ld1", "a_ld2", "a_ld3", "a_ld4", "wg_ld", "wr_unl"} /\\ (pc\'[t] = pc[t] \\/ pc[t] = "wr_unl")'
+
+
+def _gp(flavor, sysmb):
+    def f():
+        from props.gpcommon import gp_component
+        return gp_component(flavor, sysmb)
+    return f
+
+
+for _fl, _sys in (("mb", False), ("memb", True), ("memb", False)):
+    register("gp_" + _fl + ("" if _fl == "mb" else "_sys" if _sys else "_nosys"), {
+        "spec": "UrcuGp", "comp": _gp(_fl, _sys),
+        "kinds": GP_KINDS, "wait_step": GP_WAIT,
+        # gp_2u_small (two synchronize_rcu callers, 0.7-1.3M base states) is model checked for mb only, solo_gp_2r (two readers) for mb and memb
+        # without sys_membarrier (with the IPI steps of sys_membarrier it does not finish in an hour); their executions are bound for all flavors
+        "tlc": {"quick": ["solo_gp_q"], "thorough": ["solo_gp_q", "gp_1r1u", "gp_nest"] + (["solo_gp_2r"] if not _sys else []) + (["gp_2u_small"] if _fl == "mb" else [])},
+        "bind": {"quick": ["solo_gp_q"], "thorough": ["solo_gp_q", "gp_1r1u", "gp_nest", "gp_2u_small", "solo_gp_2r"]},
+        "controls": [
+            {"scenario": "solo_gp_q", "what": "synchronize_rcu claimed lock-free",
+             "kinds": [K("sync", "lf", ["s_*", "w_*", "wg_*", "wr_*", "k_*", "a_*", "m_*", "master"], 200)], "expect": ["SoloProgress", "SoloNoWait", "SoloBound"]}] if _fl == "mb" else [],
+    })
+
+
+# ------------------------------------------------------------------ design level: TLC over the Solo wrapper
+def tlc_workers():
+    """per TLC run; four lanes run side by side"""
+    return int(os.environ.get("VERIF_TLC_WORKERS", "0")) or 4
+
+
+def solo_model_check(ctx, name, scn, timeout, workers=None):
+    """Exhaustive run of the Solo wrapper for one scenario; returns the per-kind maxima of soloSteps TLC reached (None on violation)."""
+    S = SOLO[name]; sc = load_scenario(scn)
+    mod, c = gen_solo(S, sc, S["kinds"])
+    r = run_tlc(mod, coverage=False, timeout=timeout, workers=workers or tlc_workers(), heap="8g")
+    ctx.add_tlc(r, mod, {k: v for k, v in c.items() if len(v) < 200})
+    mx = solo_maxima(r.out)
+    claimed = {k["kind"]: bound(k, sc) for k in S["kinds"]}
+    log("  [TLC] %s/%s: %d distinct states, %.0fs, %s; solo maxima %s (claimed %s)" % (
+        name, scn, r.distinct, r.wall, "ok" if r.ok else (r.violation or r.error), mx, claimed))
+    ev = ctx.extra.setdefault("solo", {}).setdefault(name, {}).setdefault(scn, {})
+    ev.update({"tlc_distinct_states": r.distinct, "tlc_complete": bool(r.ok), "claimed_B": claimed, "tlc_max_solo_steps": mx,
+               "kinds_never_frozen": sorted(set(claimed) - set(mx))})
+    if r.violation:
+        d = ctx.viol_dir(); shutil.copy(r.log, os.path.join(d, "tlc.log"))
+        json.dump({"solo_tlc": {"component": name, "scenario": scn}}, open(os.path.join(d, "meta.json"), "w"))
+        ctx.violation("TLC: %s violated in %s: an operation documented wait-free / lock-free / non-blocking does not finish alone within its bound, "
+                      "blocks, waits, or returns WOULDBLOCK unjustified (design-level counterexample in tlc.log)" % (r.violation, mod), d)
+        return None
+    if not r.ok:
+        if r.error == "timeout":
+            ctx.notes.append("%s: TLC timed out after %ds with %d distinct states (not exhaustive)" % (mod, timeout, r.distinct))
+        else:
+            raise RuntimeError("TLC failed on %s: %s\n%s" % (mod, r.error, r.out[-1500:]))
+    if r.ok and not mx:
+        raise RuntimeError("%s: Freeze never fired (vacuous)" % mod)
+    return mx
+
+
+def negative_control(ctx, name, idx, timeout=900):
+    """A blocking operation claimed lock-free / wait-free on purpose: TLC must report one of the expected invariants.  Never a verdict on
+    the library; a control that passes is a failure of the machinery."""
+    S = SOLO[name]; ctl = S["controls"][idx]; sc = load_scenario(ctl["scenario"])
+    mod, c = gen_solo(S, sc, ctl["kinds"], tag="_ctl%d" % idx)
+    r = run_tlc(mod, timeout=timeout, workers=tlc_workers(), heap="8g")
+    got = (r.violation or "").replace("invariant ", "")
+    ctx.extra.setdefault("negative_controls", []).append({"component": name, "scenario": ctl["scenario"], "what": ctl["what"], "tlc": r.violation or r.error or "no violation",
+                                                         "distinct_states": r.distinct, "depth": r.depth, "expected_one_of": ctl["expect"]})
+    log("  [neg] %s/%s (%s): TLC reports %s after %d distinct states" % (name, ctl["scenario"], ctl["what"], r.violation or r.error or "NO VIOLATION", r.distinct))
+    if got not in ctl["expect"]:
+        raise RuntimeError("negative control %s/%s (%s): expected a violation of %s, TLC says %s\n%s" % (
+            name, ctl["scenario"], ctl["what"], ctl["expect"], r.violation or r.error or "no violation", r.out[-800:]))
+
+
+# ------------------------------------------------------------------ code level: VRT_SOLO at every decision of seeded schedules
+NOT_STEPS = {"flush", "call", "ret", "exit", "end", "spawn", "blocked", "replay_diverged", "solo_begin", "solo_end", "solo_skip", "fail",
+             "free", "rlock", "runlock", "gp_begin", "gp_end", "joined", "rcu_cb", "call_rcu", "sig_enter", "sig_exit", "proj", "reset"}
+BENIGN = {"relax", "poll", "rmb", "wmb", "sigmask"}      # accepted as stuttering by the trace specifications (no step of the model)
+
+
+def solo_segment(events):
+    """(thread, api, class, counted own access events, steps reported by the runtime, last call event of the thread) of the solo segment"""
+    t = api = None; n = 0; inside = False; rt = None; cls = None; lastcall = {}; call = None
+    for e in events:
+        op = e.get("op")
+        if op == "call":
+            lastcall[e.get("t")] = e
+        if op == "solo_begin":
+            t = e["t"]; api = e.get("api"); cls = e.get("cls"); inside = True; call = lastcall.get(t)
+        elif op == "solo_end":
+            inside = False; rt = e.get("steps")
+        elif inside and e.get("t") == t and op not in NOT_STEPS and op not in BENIGN:
+            n += 1
+    return t, api, cls, n, rt, call
+
+
+def nb_waits(S, events):
+    """threads that executed a busy-wait hint / poll inside a *_nonblocking call (any mode)"""
+    f = S.get("nb_call")
+    if not f:
+        return []
+    cur = {}; bad = []
+    for e in events:
+        op = e.get("op"); t = e.get("t")
+        if op == "call":
+            cur[t] = e
+        elif op == "ret":
+            cur.pop(t, None)
+        elif op in ("relax", "poll") and t in cur and f(cur[t]):
+            bad.append((t, cur[t].get("api"), e.get("loc")))
+    return bad
+
+
+_RID = itertools.count(1)          # run ids unique across lanes (conc.validate wants ascending integers)
+
+
+def _digest(events):
+    return hashlib.md5(json.dumps([e for e in events if e.get("op") not in ("solo_skip", "end")], sort_keys=True).encode()).hexdigest()
+
+
+def record_code_violation(ctx, comp, sc, seed, tso, env, events, what):
+    d = ctx.viol_dir()
+    write_ndjson(os.path.join(d, "trace.ndjson"), events)
+    json.dump({"scenario": sc["name"], "tso": tso, "seed": seed, "env": env, "driver": comp["driver"], "trace_module": "TV_%s%s_%d" % (sc["name"], comp.get("variant", ""), tso)},
+              open(os.path.join(d, "meta.json"), "w"), indent=1)
+    ctx.violation(what, d)
+
+
+def tag_new(ctx, before, name, comp, scn):
+    """record the C17 component in the meta.json of violation directories created since `before` by this component (replay needs it:
+    several components share a driver source)"""
+    for v in range(before + 1, ctx.nviol + 1):
+        mp = os.path.join(ctx.outdir, "viol-%d" % v, "meta.json")
+        if not os.path.exists(mp):
+            continue
+        m = json.load(open(mp))
+        if "component" in m or m.get("scenario") != scn:
+            continue
+        if ("work_%s/" % name) in m.get("trace", "") or m.get("trace_module", "").startswith("TV_%s%s_" % (scn, comp.get("variant", ""))):
+            m["component"] = name
+            json.dump(m, open(mp, "w"), indent=1)
+
+
+def run_one(comp, exe, sc, tso, seed, pf, wd, env_extra, tag):
+    """One execution of the driver, same environment as conc.run_batch builds for this seed (so that conc.replay reproduces it)."""
+    tp = os.path.join(wd, "s_%s_%d_%d_%s.ndjson" % (sc["name"], tso, seed, tag))
+    env = {"VRT_MODE": "uniform" if seed % 3 == 2 else "pct", "VRT_DEPTH": 1 + seed % 4, "VRT_LEN": comp.get("pct_len", 120)}
+    env.update(comp.get("env", {})); env.update(env_extra or {})
+    if env_extra:
+        env["VRT_SOLO_BUDGET"] = 400            # own steps allowed to a solo operation (the largest bound claimed is about 20)
+    rc, so, se = run_driver(exe, [seed, tso, tp, pf], env=env, timeout=comp.get("run_timeout", 30))
+    ev = read_trace(tp) if os.path.exists(tp) else []
+    if rc == 0 and os.path.exists(tp):
+        os.unlink(tp)
+    fail = None if rc == 0 else {"seed": seed, "tso": tso, "rc": rc, "stderr": se[-500:], "trace": tp, "env": env, "scenario": sc["name"]}
+    return ev, fail
+
+
+def bind_scenario(ctx, name, scn, exe, wd, nseeds, modes, tlc_max, jobs=8):
+    import concurrent.futures as cf
+    S = SOLO[name]; comp = S["comp"](); sc = load_scenario(scn)
+    kind_of = {a: k for k in S["kinds"] for a in k["apis"]}
+    ev = ctx.extra.setdefault("solo", {}).setdefault(name, {}).setdefault(scn, {})
+    code_max = ev.setdefault("code_max_solo_steps", {}); nsolo = 0; nskip = 0; nmutex = 0; first_solo = None
+    threads = sorted(sc["threads"])
+    pf = conc.program_file(comp, sc, os.path.join(wd, "prog_%s.txt" % sc["name"]))
+    skip_call = S.get("skip_call") or (lambda e: False)
+    nv0 = ctx.nviol
+    with cf.ThreadPoolExecutor(max_workers=jobs) as ex:
+        for tso in modes:
+            runs = []; idmap = {}; seen = set()
+            for j in (range(nseeds) if isinstance(nseeds, int) else nseeds[tso]):
+                if len(ctx.violations) >= conc.MAXV:
+                    break
+                seed = ctx.seed * 100003 + j
+                base, fail = run_one(comp, exe, sc, tso, seed, pf, wd, None, "base")
+                if fail:
+                    conc.report_failures(ctx, comp, [fail])
+                    continue
+                D = next((e.get("decisions", 0) for e in reversed(base) if e.get("op") == "end"), 0)
+                points = [(t, k) for t in threads for k in range(1, D + 1)]
+                res = list(ex.map(lambda tk: run_one(comp, exe, sc, tso, seed, pf, wd, {"VRT_SOLO": "%s:%d" % tk}, "%s_%d" % tk), points))
+                cands = [(None, None, base)]
+                for (t, k), (events, fail) in zip(points, res):
+                    if fail:
+                        seg = solo_segment(events)
+                        if seg[5] is not None and skip_call(seg[5]) and "SOLO_BLOCKED" in fail["stderr"]:
+                            nmutex += 1                     # the driver's class label is not the documented one (mutex inside): excluded
+                            os.unlink(fail["trace"])
+                        elif len(ctx.violations) < conc.MAXV:
+                            conc.report_failures(ctx, comp, [fail])          # WAITED / SOLO_BLOCKED / SOLO_BUDGET / any oracle: seed + VRT_SOLO = replay
+                        elif os.path.exists(fail["trace"]):
+                            os.unlink(fail["trace"])
+                    else:
+                        cands.append((t, k, events))
+                for t, k, events in cands:
+                    w = nb_waits(S, events)
+                    env = {"VRT_SOLO": "%s:%d" % (t, k)} if t else {}
+                    if w and len(ctx.violations) < conc.MAXV:
+                        record_code_violation(ctx, comp, sc, seed, tso, env, events,
+                                              "NbNeverWaits on the real code: thread %s executed a busy-wait hint / poll at %s inside the non-blocking call %s "
+                                              "(scenario %s seed %d tso=%d %s)" % (w[0][0], w[0][2], w[0][1], scn, seed, tso, env))
+                    if t is None:
+                        pass
+                    elif any(e.get("op") == "solo_skip" for e in events):
+                        nskip += 1
+                        continue
+                    else:
+                        st, api, cls, n, rt, call = solo_segment(events)
+                        if call is not None and skip_call(call):
+                            nmutex += 1
+                            continue
+                        k_ = kind_of.get(api)
+                        if k_ is None:
+                            raise RuntimeError("%s: the runtime froze %s inside %s (class %s), which the kind table of C17 does not list" % (name, st, api, cls))
+                        nsolo += 1
+                        code_max[k_["kind"]] = max(code_max.get(k_["kind"], 0), n)
+                        B = bound(k_, sc); established = (tlc_max or {}).get(k_["kind"])
+                        lim = established if established is not None else B
+                        if n > lim and len(ctx.violations) < conc.MAXV:
+                            record_code_violation(ctx, comp, sc, seed, tso, env, events,
+                                                  "SoloBound on the real code: %s (%s) took %d own steps running alone, more than the bound %d %s (scenario %s seed %d tso=%d %s)" % (
+                                                      api, k_["kind"], n, lim, "TLC established for this scenario" if established is not None else "claimed", scn, seed, tso, env))
+                    h = _digest(events)
+                    if h in seen:
+                        continue
+                    seen.add(h); rid = next(_RID)
+                    idmap[rid] = (seed, env); runs.append((rid, events))
+            ev["wouldblock_returns_in_validated_traces"] = ev.get("wouldblock_returns_in_validated_traces", 0) + sum(
+                1 for r in runs for e in r[1] if e.get("op") == "ret" and e.get("r") == "WOULDBLOCK")
+            before = ctx.nviol
+            conc.validate(ctx, comp, sc, tso, runs, wd, "tvsolo_%s_%s_%d" % (name, scn, tso))
+            for v in range(before + 1, ctx.nviol + 1):          # make rejected executions replayable: real seed + VRT_SOLO instead of the run index
+                mp = os.path.join(ctx.outdir, "viol-%d" % v, "meta.json")
+                if os.path.exists(mp):
+                    m = json.load(open(mp))
+                    if m.get("seed") in idmap:
+                        m["seed"], m["env"] = idmap[m["seed"]]
+                        json.dump(m, open(mp, "w"), indent=1)
+            smp = next((r for r in runs if any(e.get("op") == "solo_begin" for e in r[1])), None)
+            if smp and first_solo is None and len(ctx.violations) == 0:
+                first_solo = (tso, smp[1])
+            if smp:
+                i0 = next(i for i, e in enumerate(smp[1]) if e.get("op") == "solo_begin")
+                ctx.sample({"kind": "recorded execution of the real code with a solo segment (events around it)", "component": name, "scenario": scn, "tso": tso,
+                            "VRT_SOLO": idmap[smp[0]][1].get("VRT_SOLO"), "events": smp[1][max(0, i0 - 3):i0 + 12]})
+    tag_new(ctx, nv0, name, comp, scn)
+    ev["solo_runs"] = ev.get("solo_runs", 0) + nsolo
+    ev["freeze_points_outside_a_progress_class_op"] = ev.get("freeze_points_outside_a_progress_class_op", 0) + nskip
+    if nmutex:
+        ev["runs_excluded_driver_class_label_wrong"] = ev.get("runs_excluded_driver_class_label_wrong", 0) + nmutex
+    log("  [bind] %s/%s: %d solo runs (%d freeze points outside such an operation), own steps per kind %s, traces validated so far %d, violations %d" % (
+        name, scn, nsolo, nskip, code_max, ctx.traces, len(ctx.violations)))
+    return first_solo
+
+
+# ------------------------------------------------------------------ spec -> code: TLC witnesses of the WOULDBLOCK paths as schedule prefixes
+def witness_schedule(tlc_out):
+    """TLC error trace (Tracing = TRUE, no VIEW) -> VSCHED schedule: one entry per state whose acc.k grew (T:<thread>, F:<thread> for a flush)"""
+    sched = []; k0 = 0
+    for m in re.finditer(r"^State \d+: .*?\n(.*?)(?=^State \d+:|\Z)", tlc_out, re.S | re.M):
+        a = re.search(r"/\\ acc = (\[.*?\])\s*(?=\n/\\ |\n\n|\Z)", m.group(1), re.S)
+        if not a:
+            continue
+        blk = a.group(1)
+        k = re.search(r"\bk \|-> (\d+)", blk); t = re.search(r"\bt \|-> \"([^\"]+)\"", blk); op = re.search(r"\bop \|-> \"([^\"]+)\"", blk)
+        if k and int(k.group(1)) > k0:
+            k0 = int(k.group(1))
+            sched.append(("F:" if op and op.group(1) == "flush" else "T:") + t.group(1))
+    return sched
+
+
+def run_sched(comp, exe, sc, pf, wd, sched, env_extra, tag):
+    sp = os.path.join(wd, "w_%s.sched" % tag)
+    with open(sp, "w") as f:
+        f.write("#auto-benign\n" + "\n".join(sched) + "\n")
+    tp = os.path.join(wd, "w_%s.ndjson" % tag)
+    env = dict(comp.get("env", {})); env["VRT_SCHED"] = sp; env.update(env_extra or {})
+    if env_extra:
+        env["VRT_SOLO_BUDGET"] = 400
+    rc, so, se = run_driver(exe, [0, 1, tp, pf], env=env, timeout=comp.get("run_timeout", 30))
+    ev = read_trace(tp) if os.path.exists(tp) else []
+    if rc == 0 and os.path.exists(tp):
+        os.unlink(tp)
+    os.unlink(sp)
+    envm = {k: v for k, v in env.items() if k != "VRT_SCHED"}
+    fail = None if rc == 0 else {"seed": 0, "tso": 1, "rc": rc, "stderr": se[-500:], "trace": tp, "env": envm, "scenario": sc["name"], "schedule": sched}
+    return ev, fail
+
+
+def witnesses(ctx, name, scn, exe, wd):
+    """For every witness predicate of the component (a non-blocking call deciding WOULDBLOCK on one of its paths): TLC's shortest behaviour
+    reaching it is forced onto the real code as a schedule (software-TSO, flushes included).  The code must follow it, return WOULDBLOCK
+    there without a busy-wait hint, and the same prefix is then used with VRT_SOLO=<t>:<k> for every thread and every k."""
+    import concurrent.futures as cf
+    S = SOLO[name]; comp = S["comp"](); sc = load_scenario(scn)
+    mcc = (S.get("mc_comp") or S["comp"])()
+    c = conc.consts_for(mcc, sc, True, True)
+    base = gen_mc(sc, "witbase%s" % mcc.get("variant", ""), c, cfg_lines=[])
+    pf = conc.program_file(comp, sc, os.path.join(wd, "prog_%s.txt" % sc["name"]))
+    kind_of = {a: k for k in S["kinds"] for a in k["apis"]}
+    evd = ctx.extra.setdefault("solo", {}).setdefault(name, {}).setdefault(scn, {}).setdefault("wouldblock_witnesses", {})
+    runs = []; idmap = {}
+    for wname, pred, want_wb in [(w + (True,))[:3] for w in S.get("witnesses", {}).get(scn, [])]:
+        if len(ctx.violations) >= conc.MAXV:
+            break
+        mod = "WIT_%s%s_%s" % (sc["name"], mcc.get("variant", ""), wname)
+        with open(os.path.join(GEN, mod + ".tla"), "w") as f:
+            f.write("---- MODULE %s ----\nEXTENDS %s\nWit == ~(\\E zt \\in Threads : %s)\n====\n" % (mod, base, zt(pred)))
+        with open(os.path.join(GEN, mod + ".cfg"), "w") as f:
+            f.write("SPECIFICATION Spec\n" + open(os.path.join(GEN, base + ".cfg")).read() + "INVARIANT Wit\n" +
+                    "".join("CONSTRAINT %s\n" % x for x in mcc.get("constraints", [])) + "CHECK_DEADLOCK FALSE\n")
+        r = run_tlc(mod, timeout=600, workers=tlc_workers(), heap="4g")
+        ctx.states += r.distinct; ctx.transitions += r.states
+        if r.violation != "invariant Wit":
+            raise RuntimeError("witness %s/%s/%s: TLC did not reach the WOULDBLOCK path (%s): scenario too small or predicate wrong" % (name, scn, wname, r.violation or r.error or "no violation"))
+        sched = witness_schedule(r.out)
+        ev, fail = run_sched(comp, exe, sc, pf, wd, sched, None, wname)
+        if fail:
+            conc.report_failures(ctx, comp, [fail])
+            continue
+        nwb = sum(1 for e in ev if e.get("op") == "ret" and e.get("r") == "WOULDBLOCK")
+        div = any(e.get("op") == "replay_diverged" for e in ev)
+        w = nb_waits(S, ev)
+        evd[wname] = {"schedule": sched, "followed": not div, "wouldblock_returns": nwb, "tlc_depth": r.depth}
+        if div or (want_wb and not nwb) or w:
+            d = ctx.viol_dir(); write_ndjson(os.path.join(d, "trace.ndjson"), ev)
+            json.dump({"scenario": scn, "tso": 1, "seed": 0, "schedule": sched, "driver": comp["driver"], "component": name, "env": {}}, open(os.path.join(d, "meta.json"), "w"), indent=1)
+            ctx.violation("the real code does not follow TLC's behaviour to the WOULDBLOCK return of witness %s (scenario %s): %s" % (
+                wname, scn, "busy-wait hint at %s inside the non-blocking call" % w[0][2] if w else "schedule not followed" if div else "no WOULDBLOCK returned"), d)
+            continue
+        rid = next(_RID); idmap[rid] = ({}, sched); runs.append((rid, ev)); ctx.replays += 1
+        D = next((e.get("decisions", 0) for e in reversed(ev) if e.get("op") == "end"), 0)
+        points = [(t, k) for t in sorted(sc["threads"]) for k in range(1, D + 1)]
+        with cf.ThreadPoolExecutor(max_workers=8) as ex:
+            res = list(ex.map(lambda tk: run_sched(comp, exe, sc, pf, wd, sched, {"VRT_SOLO": "%s:%d" % tk}, "%s_%s_%d" % ((wname,) + tk)), points))
+        seen = set()
+        for (t, k), (events, fail) in zip(points, res):
+            if fail:
+                if len(ctx.violations) < conc.MAXV:
+                    conc.report_failures(ctx, comp, [fail])
+                elif os.path.exists(fail["trace"]):
+                    os.unlink(fail["trace"])
+                continue
+            if any(e.get("op") == "solo_skip" for e in events):
+                continue
+            st, api, cls, n, rt, call = solo_segment(events)
+            k_ = kind_of.get(api)
+            if k_ and n > bound(k_, sc) and len(ctx.violations) < conc.MAXV:
+                d = ctx.viol_dir(); write_ndjson(os.path.join(d, "trace.ndjson"), events)
+                json.dump({"scenario": scn, "tso": 1, "seed": 0, "schedule": sched, "driver": comp["driver"], "component": name, "env": {"VRT_SOLO": "%s:%d" % (t, k)}},
+                          open(os.path.join(d, "meta.json"), "w"), indent=1)
+                ctx.violation("SoloBound on the real code: %s took %d own steps running alone after TLC's prefix %s (bound %d)" % (api, n, wname, bound(k_, sc)), d)
+            h = _digest(events)
+            if h not in seen:
+                seen.add(h); rid = next(_RID); idmap[rid] = ({"VRT_SOLO": "%s:%d" % (t, k)}, sched); runs.append((rid, events))
+    before = ctx.nviol
+    conc.validate(ctx, comp, sc, 1, runs, wd, "tvwit_%s_%s" % (name, scn))
+    for v in range(before + 1, ctx.nviol + 1):
+        mp = os.path.join(ctx.outdir, "viol-%d" % v, "meta.json")
+        if os.path.exists(mp):
+            m = json.load(open(mp))
+            if m.get("seed") in idmap:
+                env, sched = idmap[m["seed"]]
+                m.update(seed=0, env=env, schedule=sched, component=name)
+                json.dump(m, open(mp, "w"), indent=1)
+    log("  [wit] %s/%s: %d TLC witnesses (WOULDBLOCK paths, half-done operations) replayed into the real code (%s), %d executions (with solo suffixes) validated" % (
+        name, scn, len(evd), ", ".join("%s: %d steps" % (k, len(v["schedule"])) for k, v in evd.items()), len(runs)))
+
+
+class _Scratch:
+    """throw-away context for the corruption control (a rejection there is the expected outcome, not a violation)"""
+    def __init__(self, ctx):
+        self.violations = []; self.notes = []; self.states = self.transitions = self.traces = self.events = 0; self.nviol = 0
+        self.outdir = os.path.join(ctx.outdir, "scratch_%d" % next(_RID)); self.pid = ctx.pid
+
+    def viol_dir(self):
+        self.nviol += 1
+        d = os.path.join(self.outdir, "v%d" % self.nviol); os.makedirs(d, exist_ok=True)
+        return d
+
+    def violation(self, what, replay, key=None):
+        self.violations.append(what)
+
+
+def corruption_control(ctx, name, scn, tso, events, wd):
+    """Binding control: one field of a recorded solo execution is altered (the value an RMW / load of the solo segment returned); the trace
+    specification must reject the altered trace (and accept the original, which it just did)."""
+    S = SOLO[name]; comp = S["comp"](); sc = load_scenario(scn)
+    i0 = next(i for i, e in enumerate(events) if e.get("op") == "solo_begin")
+    j = next((i for i in range(i0, len(events)) if events[i].get("op") in ("xchg", "cas", "ld") and events[i].get("t") == events[i0]["t"]), None)
+    if j is None:
+        return
+    bad = [dict(e) for e in events]
+    bad[j]["r"] = "n9" if isinstance(bad[j].get("r"), str) else 77
+    sx = _Scratch(ctx)
+    conc.validate(sx, comp, sc, tso, [(1, bad)], wd, "tvcorrupt_%s" % name)
+    shutil.rmtree(sx.outdir, ignore_errors=True)
+    ctx.extra.setdefault("corruption_controls", []).append({"component": name, "scenario": scn, "event_index": j, "field": "r", "original": events[j].get("r"),
+                                                           "altered_to": bad[j]["r"], "rejected": bool(sx.violations)})
+    log("  [corrupt] %s/%s: result field of event %d (%s %s) altered %r -> %r: %s" % (name, scn, j, events[j].get("op"), events[j].get("var"), events[j].get("r"), bad[j]["r"],
+                                                                                  "rejected" if sx.violations else "ACCEPTED"))
+    if not sx.violations:
+        raise RuntimeError("corruption control %s/%s: an altered trace was accepted by the trace specification" % (name, scn))
+
+
+def build(ctx, S):
+    if S.get("build"):
+        return S["build"](ctx, S)
+    comp = S["comp"]()
+    drv = comp.get("drvname", comp["driver"][:-2])
+    return build_driver(drv, comp["driver"], defines=comp.get("defines", ()), lb=comp.get("lb", True), tag=ctx.pid + "_" + drv)
+
+
+_MAXIMA = {}        # component -> scenario -> maxima TLC established in this run
+
+
+def run_component(ctx, name, q, phases=("model", "bind")):
+    S = SOLO[name]
+    tier = "quick" if q else "thorough"
+    only = os.environ.get("VERIF_SCEN")
+    maxima = _MAXIMA.setdefault(name, {}); t0 = time.time(); corrupted = False
+    tm = ctx.extra.setdefault("wall_s_per_component", {}).setdefault(name, {})
+    if "model" in phases:
+        if S.get("prepare"):
+            wd = os.path.join(ctx.outdir, "prep_" + name); os.makedirs(wd, exist_ok=True)
+            S["prepare"](ctx, build(ctx, S), wd)
+            shutil.rmtree(wd, ignore_errors=True)
+        for scn in ([] if os.environ.get("VERIF_C17_NOTLC") else S["tlc"][tier]):          # VERIF_C17_NOTLC=1: code binding only (development)
+            if only and scn not in only.split(","):
+                continue
+            if len(ctx.violations) >= conc.MAXV:
+                break
+            maxima[scn] = solo_model_check(ctx, name, scn, 900 if q else 3600)
+        t1 = time.time()
+        if not only:
+            for i in range(len(S.get("controls", []))):
+                negative_control(ctx, name, i)
+        tm["tlc"] = round(t1 - t0); tm["controls"] = round(time.time() - t1)
+    if "bind" in phases:
+        t2 = time.time()
+        wd = os.path.join(ctx.outdir, "work_" + name); shutil.rmtree(wd, ignore_errors=True); os.makedirs(wd)
+        exe = build(ctx, S)
+        nseeds, modes = ({1: (0, 1), 0: (2,)}, (1, 0)) if q else (20, (1, 0))        # quick: seeds 0,1 under software-TSO, seed 2 under SC
+        for scn in S["bind"][tier]:
+            if only and scn not in only.split(","):
+                continue
+            if len(ctx.violations) >= conc.MAXV:
+                break
+            if scn in S.get("witnesses", {}):
+                witnesses(ctx, name, scn, exe, wd)
+            if len(ctx.violations) >= conc.MAXV:
+                break
+            smp = bind_scenario(ctx, name, scn, exe, wd, nseeds, modes, maxima.get(scn))
+            if smp and not corrupted and len(ctx.violations) == 0:
+                corrupted = True
+                corruption_control(ctx, name, scn, smp[0], smp[1], wd)
+        shutil.rmtree(wd, ignore_errors=True)
+        tm["code_binding"] = round(time.time() - t2)
+    log("  [time] %s: %s" % (name, ", ".join("%s %ss" % kv for kv in tm.items())))
+
+
+# ------------------------------------------------------------------ hash table (spec/Lfht.tla, harness/d_lfht.c: tools/lfht_common.py)
+def _lfht():
+    import lfht_common as L
+    return dict(L.LFHT)
+
+
+def _lfht_build(ctx, S):
+    import lfht_common as L
+    return L._build_driver("d_lfht", "d_lfht.c", tag=ctx.pid + "_d_lfht")
+
+
+def _lfht_n(sc):
+    return len(sc.get("nodes", {})) + sc.get("max_size", 4)          # nodes that can be linked: user nodes + bucket nodes
+
+
+def _lfht_lf(sc):
+    """restarts from the bucket: at most once per failed cmpxchg / unlink, i.e. per logically removed node left behind by a suspended thread or by
+    the operation itself; add_replace and replace walk twice (insert position / old node, then garbage collection)"""
+    return 2 * (_threads(sc) + 1) * (_lfht_n(sc) + 2) + _threads(sc) + 8
+
+
+def _lfht_serial(ctx, fn):
+    """lfht_common binds its own normalize / build_driver into conc (process-wide): this component runs alone, after the lanes"""
+    import lfht_common as L
+    saved = (conc.normalize, conc.build_driver)
+    L.install()
+    try:
+        fn()
+    finally:
+        conc.normalize, conc.build_driver = saved
+
+
+register("lfht", {
+    "spec": "Lfht", "comp": _lfht, "build": _lfht_build, "serial": _lfht_serial,
+    # wait-free: lookup, lookup + next_duplicate walk, first + next traversal: one load per node of the list (plus size / bucket loads and
+    # the assertion load of every node returned).  lock-free: add / add_unique / add_replace / replace / del: every failed cmpxchg and every
+    # garbage-collection unlink restarts from the bucket, alone at most once per logically removed node left behind by suspended operations.
+    "kinds": [K("lookup", "wf", ["*"], lambda sc: _lfht_n(sc) + 4, when='op[t].op = "lookup"', apis=["lookup"]),
+              K("dups", "wf", ["*"], lambda sc: 2 * _lfht_n(sc) + 4, when='op[t].op = "dups"', apis=["dups"]),
+              K("iter", "wf", ["*"], lambda sc: 2 * _lfht_n(sc) + 4, when='op[t].op = "iter"', apis=["iter"]),
+              K("add", "lf", ["*"], _lfht_lf, when='op[t].op = "add"', apis=["add"]),
+              K("addu", "lf", ["*"], _lfht_lf, when='op[t].op = "addu"', apis=["addu"]),
+              K("addr", "lf", ["*"], _lfht_lf, when='op[t].op = "addr"', apis=["addr"]),
+              K("del", "lf", ["*"], _lfht_lf, when='op[t].op = "del"', apis=["del"]),
+              K("repl", "lf", ["*"], _lfht_lf, when='op[t].op = "repl"', apis=["replace"])],
+    "tlc": {"quick": ["solo_lfht_del", "solo_lfht_repl", "solo_lfht_addr"],
+            "thorough": ["solo_lfht_del", "solo_lfht_repl", "solo_lfht_addr", "lfht_grow", "lfht_uniq", "lfht_adl", "lfht_trav", "lfht_repl_lookup", "lfht_2del"]},
+    "bind": {"quick": ["solo_lfht_del", "solo_lfht_repl", "solo_lfht_addr"],
+             "thorough": ["solo_lfht_del", "solo_lfht_repl", "solo_lfht_addr", "lfht_uniq", "lfht_adl", "lfht_trav", "lfht_repl_lookup", "lfht_2del", "lfht_grow", "lfht_shrink"]},
+    # a remover suspended after the logical delete (REMOVED set) and before the unlink; a replace suspended before the unlink of the old node
+    "witnesses": {"solo_lfht_del": [("del_flagged_not_unlinked", 'pc[t] = "c_ldb" /\\ gcret[t] = "del"', False)],
+                  "solo_lfht_repl": [("replace_done_old_not_unlinked", 'pc[t] = "c_ldb" /\\ gcret[t] = "repl"', False)]},
+    "controls": [],
+})
+
+
+class Lane:
+    """View of the check context for one of the parallel lanes (own counters, merged at the end; violations, notes, samples and evidence
+    extras go straight to the main context under a lock)."""
+    _lock = threading.Lock()
+
+    def __init__(self, ctx, name):
+        self.main = ctx; self.name = name; self.pid = ctx.pid; self.tier = ctx.tier; self.seed = ctx.seed
+        self.states = self.transitions = self.traces = self.events = self.replays = 0
+        self.violations = ctx.violations; self.notes = ctx.notes; self.extra = ctx.extra; self.configs = ctx.configs; self.findings = ctx.findings
+        self.outdir = ctx.outdir
+
+    nviol = property(lambda self: self.main.nviol)
+
+    def quick(self):
+        return self.main.quick()
+
+    def sample(self, smp):
+        with Lane._lock:
+            self.main.sample(smp)
+
+    def viol_dir(self):
+        with Lane._lock:
+            return self.main.viol_dir()
+
+    def violation(self, what, replay, key=None):
+        with Lane._lock:
+            self.main.violation(what, replay, key)
+
+    def add_tlc(self, r, name, consts=None):
+        self.states += r.distinct; self.transitions += r.states
+        with Lane._lock:
+            self.configs.append({"config": name, "distinct_states": r.distinct, "states_generated": r.states, "depth": r.depth,
+                                 "wall_s": round(r.wall, 1), "complete": bool(r.ok), "constants": consts or {}})
+
+    def merge(self):
+        for k in ("states", "transitions", "traces", "events", "replays"):
+            setattr(self.main, k, getattr(self.main, k) + getattr(self, k))
+
+
+LANES = [["wfcq"], ["wfs", "lfs"], ["lfq"], ["gp_mb", "gp_memb_nosys"], ["gp_memb_sys"]]
+
+
+def run(ctx):
+    import concurrent.futures as cf
+    q = ctx.quick()
+    onlyc = os.environ.get("VERIF_COMP")
+    serial = [n for n in SOLO if SOLO[n].get("serial")]
+    lanes = [[n for n in l if n in SOLO] for l in LANES] + [[n] for n in SOLO if not any(n in l for l in LANES) and n not in serial]      # components registered later get a lane each
+
+    def work(lane, names):
+        for name in names:
+            if onlyc and name not in onlyc.split(","):
+                continue
+            if len(ctx.violations) >= conc.MAXV:
+                break
+            run_component(lane, name, q, ("model",) if name in serial else ("model", "bind"))
+
+    lanes += [[n] for n in serial]          # their TLC part runs in a lane of its own, their code binding after the lanes
+    objs = [(Lane(ctx, "l%d" % i), names) for i, names in enumerate(lanes) if names]
+    errs = []
+    with cf.ThreadPoolExecutor(max_workers=len(objs)) as ex:
+        futs = [ex.submit(work, l, names) for l, names in objs]
+        for f in futs:
+            try:
+                f.result()
+            except Exception as e:           # let the other lanes finish, then report the first machinery failure
+                errs.append(e)
+    for l, names in objs:
+        l.merge()
+    if errs:
+        raise errs[0]
+    for name in serial:
+        if (onlyc and name not in onlyc.split(",")) or len(ctx.violations) >= conc.MAXV:
+            continue
+        SOLO[name]["serial"](ctx, lambda: run_component(ctx, name, q, ("bind",)))
+    # vacuity: every kind of every component was run solo at least once, in the model and on the code
+    for name, scs in ctx.extra.get("solo", {}).items():
+        kinds = {k["kind"] for k in SOLO[name]["kinds"] if not k["optional"]}
+        m = set().union(*[set(v.get("tlc_max_solo_steps", {})) for v in scs.values()]) if scs else set()
+        c = set().union(*[set(v.get("code_max_solo_steps", {})) for v in scs.values()]) if scs else set()
+        if kinds - m:
+            ctx.notes.append("%s: kinds never frozen in any model-checked scenario of this tier: %s" % (name, sorted(kinds - m)))
+        if kinds - c:
+            ctx.notes.append("%s: kinds never run solo on the real code in this tier: %s" % (name, sorted(kinds - c)))
+
+
+def replay(ctx, path):
+    meta = json.load(open(os.path.join(path, "meta.json")))
+    if "solo_tlc" in meta:
+        S = SOLO[meta["solo_tlc"]["component"]]
+        if S.get("prepare"):
+            wd = os.path.join(ctx.outdir, "replay_prep"); os.makedirs(wd, exist_ok=True)
+            S["prepare"](ctx, build(ctx, S), wd)
+        solo_model_check(ctx, meta["solo_tlc"]["component"], meta["solo_tlc"]["scenario"], 3000)
+        log("replay of %s: %s" % (path, "violation reproduced" if ctx.violations else "no violation on the current tree"))
+        return
+    sc = load_scenario(meta["scenario"])
+    cands = [n for n, S in SOLO.items() if S["spec"] == sc["spec"] and S["comp"]()["driver"] == meta.get("driver", S["comp"]()["driver"])]
+    name = next((n for n in cands if meta.get("component") == n), cands[0])
+    S = SOLO[name]
+    if S.get("prepare"):
+        wd = os.path.join(ctx.outdir, "replay_prep"); os.makedirs(wd, exist_ok=True)
+        S["prepare"](ctx, build(ctx, S), wd)
+    def go():
+        if "schedule" in meta and (meta.get("env") or {}).get("VRT_SOLO"):          # TLC-derived prefix + solo suffix
+            comp = S["comp"](); wd = os.path.join(ctx.outdir, "replay_work"); shutil.rmtree(wd, ignore_errors=True); os.makedirs(wd)
+            pf = conc.program_file(comp, sc, os.path.join(wd, "prog_%s.txt" % sc["name"]))
+            ev, fail = run_sched(comp, build(ctx, S), sc, pf, wd, meta["schedule"], {"VRT_SOLO": meta["env"]["VRT_SOLO"]}, "replay")
+            if fail:
+                conc.report_failures(ctx, comp, [fail])
+            else:
+                conc.validate(ctx, comp, sc, 1, [(0, ev)], wd, "tv_replay")
+            log("replay of %s: %s" % (path, "violation reproduced" if ctx.violations else "no violation on the current tree"))
+        else:
+            conc.replay(ctx, S["comp"](), path)
+    if S.get("serial"):
+        S["serial"](ctx, go)
+    else:
+        go()
